@@ -22,3 +22,21 @@ Proof.
   - apply V.Dsl.Proofs.names_unique.
 Qed.
 Print Assumptions C06_names_refuted.
+
+(* The hypothesis  well_shaped (snd nv) = true  of C06_refines_step is necessary: a value made of a parameter
+   whose value is the EMPTY text followed by a partial reference means a partial reference for the
+   specification, while the token-level model abstains (Unsupp: meaning depends on textual adjacency). *)
+Require Import V.Dsl.Spec.
+Definition shape_witness : ns :=
+  {| n_entry := "main"; n_eargs := [("q", [])];
+     n_wfs := [ {| w_name := "main"; w_params := [("q", None)];
+                   w_steps := [("a", "gen"); ("b", "use")];
+                   w_exec := [("a", []); ("b", [("p", [Param "q"; Out ["a"] None])])] |} ];
+     n_comps := [ {| c_name := "gen"; c_params := []; c_vars := []; c_args := [Lit "hi"] |};
+                  {| c_name := "use"; c_params := [("p", None)]; c_vars := [];
+                     c_args := [POut "p" [] (Some "ref")] |} ] |}.
+
+Theorem C06_refines_step_shape_refuted :
+  exists N, (exists S, spec_ns N = Some S) /\ compile N = Unsupp.
+Proof. exists shape_witness. split; [eexists; vm_compute; reflexivity | vm_compute; reflexivity]. Qed.
+Print Assumptions C06_refines_step_shape_refuted.
